@@ -281,6 +281,34 @@ def span_close_bookkeeping(F, R):
                 if not marks:
                     bad = "a received close notification does not mark its (possibly already existing) entry as closed"
     R.check(bad is None and n >= 1, "close-marks-entry", b, f"every received close id marks its entry on all {n} paths", bad or "no path receives a close notification")
+    # ... and a waiter that subscribed before its span closed stays registered until it does: the predicate that sweeps the entries
+    # removes one (and notifies its waiters) only after learning that its span was closed, and leaves every entry it keeps untouched
+    sweeps = [(s, t) for s, t in b.calls(lambda t: callee_is(t, r"HashMap(::<.*>)?::retain$"))]
+    if len(sweeps) != 1:
+        raise Unverifiable(f"sweep of the span entries (`retain`) in {b.short}: {len(sweeps)}")
+    cl = A.closure_of_operand(F, b, sweeps[0][1]["args"][1])
+    if cl is None:
+        raise Unverifiable("predicate of the span-entry sweep")
+    V = ("arg", 3)
+    srows = D.Deep(F, cl, max_paths=400).run()
+    if not srows:
+        raise Unverifiable("span-entry sweep: empty table")
+    touched = lambda p: [e for e in p.effects if (e[0] == "write" and D.mentions(e[1], lambda y: y == V)) or
+                         (e[0] == "call" and re.search(r"Sender.*::send$|mem::(take|replace)$|Option::<.*>::take$|Vec::<.*>::(clear|drain|pop)$", e[1]) and D.mentions(e[2], lambda y: y == V))]
+    closed = lambda p: any(o is True and a[0] != "discr" and D.mentions(a, lambda y: y == V) and not (isinstance(a, tuple) and a[0] in ("call", "bin")) for a, o in p.conds)
+    n_keep = n_rm = 0
+    for p in srows:
+        conds = " ∧ ".join(f"{D.fmt(cl, a)[:50]}={o}" for a, o in p.conds) or "always"
+        if p.ret == ("const", True) and not p.cut:
+            n_keep += 1
+            R.check(not touched(p), "sweep/kept-entry-untouched", cl, "an entry that is kept is not modified",
+                    f"[{conds}] the sweep keeps the entry but has taken its waiters / modified it: a waiter registered before its span closed is dropped "
+                    f"(un-notified) and the step's result overtakes the logs of its span")
+        else:
+            n_rm += 1
+            R.check(closed(p), "sweep/removed-only-when-closed", cl, "an entry is removed / its waiters notified only after `closed` was learned true",
+                    f"[{conds}] the sweep notifies the waiters of / removes an entry whose span has not been reported closed")
+    R.check(n_keep >= 1 and n_rm >= 1, "sweep/table", cl, f"{n_keep} keeping rows, {n_rm} removing rows", f"sweep table incomplete: keep {n_keep}, remove {n_rm}")
 
 
 def _dominated_or_guarded(b, a, c):
@@ -469,7 +497,7 @@ def r5(F, R):
 
 def r6(F, R):
     span_close_bookkeeping(F, R)
-    R.floor(1)
+    R.floor(4)
 
 
 def r7_clone(F, R):
